@@ -939,6 +939,19 @@ func recvFieldOrPassed(p *chk.Prog, f *chk.Fn, typ, name string) func(ast.Expr) 
 // other assignment is `L = append(L, a)` for the element a of a range loop over the collection, that append is
 // dominated by keep(a), the loop has no break, and an iteration ends without the append only when keep(a) is false.
 func filteredList(f *chk.Fn, g *chk.Graph, e ast.Expr, coll func(ast.Expr) bool, keep func(elem func(ast.Expr) bool, positive bool) chk.Guard) bool {
+	return collectedList(f, g, e, coll, keep, nil)
+}
+
+// mappedList: e is a local list that holds proj(element) for every element of the collection, in order (the list a
+// helper returns to its caller, which then hands all of it on).
+func mappedList(f *chk.Fn, g *chk.Graph, e ast.Expr, coll func(ast.Expr) bool, proj func(elem func(ast.Expr) bool) func(ast.Expr) bool) bool {
+	if rid, isId := ast.Unparen(f.Resolve(e)).(*ast.Ident); isId {
+		e = rid
+	}
+	return collectedList(f, g, e, coll, func(func(ast.Expr) bool, bool) chk.Guard { return chk.NoGuard }, proj)
+}
+
+func collectedList(f *chk.Fn, g *chk.Graph, e ast.Expr, coll func(ast.Expr) bool, keep func(elem func(ast.Expr) bool, positive bool) chk.Guard, proj func(elem func(ast.Expr) bool) func(ast.Expr) bool) bool {
 	id, ok := ast.Unparen(e).(*ast.Ident)
 	if !ok {
 		return false
@@ -960,7 +973,7 @@ func filteredList(f *chk.Fn, g *chk.Graph, e ast.Expr, coll func(ast.Expr) bool,
 			return false
 		}
 		r := ast.Unparen(as.Rhs[0])
-		if cl, isLit := r.(*ast.CompositeLit); f.IsNilLit(r) || (isLit && len(cl.Elts) == 0) {
+		if cl, isLit := r.(*ast.CompositeLit); f.IsNilLit(r) || (isLit && len(cl.Elts) == 0) || isEmptyMake(f, r) {
 			if as.Pos() > id.Pos() {
 				return false
 			}
@@ -971,12 +984,22 @@ func filteredList(f *chk.Fn, g *chk.Graph, e ast.Expr, coll func(ast.Expr) bool,
 			return false
 		}
 		a := rangeVal(f, rs)
-		if !f.IsAssignPat("R", "append(R, A)", chk.H("R", f.IsObj(l)), chk.H("A", a))(as) {
+		what := a
+		if proj != nil {
+			what = proj(a)
+		}
+		if !f.IsAssignPat("R", "append(R, A)", chk.H("R", f.IsObj(l)), chk.H("A", what))(as) {
 			return false
 		}
 		sites := g.Find(func(m ast.Node) bool { return m == ast.Node(as) })
-		if len(sites) != 1 || !g.Dominated(sites[0], keep(a, true)) || loopHasBreak(g, rs) ||
-			loopSkipsWithout(g, rs, func(m ast.Node) bool { return m == sites[0].Top }, keep(a, false)) {
+		if len(sites) != 1 || loopHasBreak(g, rs) {
+			return false
+		}
+		kp, kn := keep(a, true), keep(a, false)
+		if !kp.IsNone() && !g.Dominated(sites[0], kp) {
+			return false
+		}
+		if loopSkipsWithout(g, rs, func(m ast.Node) bool { return m == sites[0].Top }, kn) {
 			return false
 		}
 		if !(rs.End() <= id.Pos()) {
@@ -987,6 +1010,18 @@ func filteredList(f *chk.Fn, g *chk.Graph, e ast.Expr, coll func(ast.Expr) bool,
 	return nApp == 1
 }
 
+// isEmptyMake: make(T, 0) / make(T, 0, n)
+func isEmptyMake(f *chk.Fn, e ast.Expr) bool {
+	call, ok := ast.Unparen(e).(*ast.CallExpr)
+	if !ok || len(call.Args) < 2 {
+		return false
+	}
+	if id, isId := call.Fun.(*ast.Ident); !isId || id.Name != "make" {
+		return false
+	}
+	return f.IsConstInt(call.Args[1], 0)
+}
+
 // foundIndex: e (used at the site) is the index of an element of the collection for which cond(element) holds: an
 // integer local that is set to the key of a range loop over the collection only where cond holds for that iteration's
 // element, is otherwise only ever -1 (or its zero declaration before the search), and is known to be >= 0 at the site
@@ -995,6 +1030,10 @@ func foundIndex(f *chk.Fn, g *chk.Graph, e ast.Expr, site chk.Site, coll func(as
 	id, ok := ast.Unparen(e).(*ast.Ident)
 	if !ok {
 		return false
+	}
+	// a plain copy of the search result (`i := found`) stands for it
+	if rid, isId := ast.Unparen(f.Resolve(id)).(*ast.Ident); isId {
+		id = rid
 	}
 	v := f.ObjOf(id)
 	if _, isVar := v.(*types.Var); !isVar {
@@ -1028,7 +1067,8 @@ func foundIndex(f *chk.Fn, g *chk.Graph, e ast.Expr, site chk.Site, coll func(as
 	if nSet == 0 {
 		return false
 	}
-	isV := f.IsObj(v)
+	isObjV := f.IsObj(v)
+	isV := func(x ast.Expr) bool { return isObjV(x) || isObjV(f.Resolve(x)) }
 	return g.Dominated(site, chk.GOr(g.GPat(true, "V >= 0", chk.H("V", isV)), g.GPat(true, "V > -1", chk.H("V", isV)), g.GPat(true, "V != -1", chk.H("V", isV))))
 }
 
@@ -1222,14 +1262,54 @@ func keyedAccumulatorRule(x *chk.R, p *chk.Prog, pkgs ...string) int {
 				if _, isMap := f.Info().TypeOf(ix.X).Underlying().(*types.Map); !isMap {
 					return false
 				}
-				return isFreshContainer(f, as.Rhs[0])
+				if isFreshContainer(f, as.Rhs[0]) {
+					return true
+				}
+				// M[k] = s where s was just made: `s = sets.New(); M[k] = s`
+				if id, isId := ast.Unparen(as.Rhs[0]).(*ast.Ident); isId {
+					if rhs, idx := g.DefOf(id, g.FactSite(id)); rhs != nil && idx == 0 && isFreshContainer(f, rhs) {
+						return true
+					}
+				}
+				return false
 			}) {
 				as := s.Node.(*ast.AssignStmt)
 				ix := ast.Unparen(as.Lhs[0]).(*ast.IndexExpr)
 				sameM := func(e ast.Expr) bool { return f.SameExpr(e, ix.X) }
 				sameK := func(e ast.Expr) bool { return f.SameExpr(e, ix.Index) }
+				// a local that stands for the entry: looked up from M[..] or stored into it
+				entryVar := func(e ast.Expr) bool {
+					id, isId := ast.Unparen(e).(*ast.Ident)
+					if !isId || f.ObjOf(id) == nil {
+						return false
+					}
+					o := f.ObjOf(id)
+					found := false
+					ast.Inspect(f.Body, func(nd ast.Node) bool {
+						a2, ok := nd.(*ast.AssignStmt)
+						if !ok || found {
+							return !found
+						}
+						if len(a2.Rhs) == 1 && len(a2.Lhs) >= 1 {
+							if l, isL := ast.Unparen(a2.Lhs[0]).(*ast.Ident); isL && f.ObjOf(l) == o {
+								if rx, isIx := ast.Unparen(a2.Rhs[0]).(*ast.IndexExpr); isIx && sameM(rx.X) {
+									found = true
+								}
+							}
+							if lx, isIx := ast.Unparen(a2.Lhs[0]).(*ast.IndexExpr); isIx && len(a2.Lhs) == 1 && sameM(lx.X) {
+								if r, isR := ast.Unparen(a2.Rhs[0]).(*ast.Ident); isR && f.ObjOf(r) == o {
+									found = true
+								}
+							}
+						}
+						return true
+					})
+					return found
+				}
 				// is the entry accumulated into elsewhere in the function?
 				acc := len(g.FindPat("M[K].Insert(ETC)", chk.H("M", sameM))) > 0 ||
+					len(g.FindPat("V.Insert(ETC)", chk.H("V", entryVar))) > 0 ||
+					len(g.Find(f.IsAssignPat("V", "append(V, ETC)", chk.H("V", entryVar)))) > 0 ||
 					len(g.Find(f.IsAssignPat("M[K]", "append(M[K], ETC)", chk.H("M", sameM)))) > 0 ||
 					len(g.Find(func(nd ast.Node) bool {
 						a2, ok := nd.(*ast.AssignStmt)
@@ -1521,4 +1601,113 @@ func freshValue(f *chk.Fn, e ast.Expr, self *types.Var) bool {
 		}
 	}
 	return false
+}
+
+// ---- values followed across call boundaries (request objects, hoisted arguments) ------------------------------------
+
+// xleaf is where a value followed backwards ends: an expression of a function that is not a plain copy of something
+// else (a parameter of a function without callers, a literal, a call result ...).
+type xleaf struct {
+	Fn *chk.Fn
+	E  ast.Expr
+}
+
+// crossLeaves follows e (in f) backwards through local definitions, fields of structs built in place (`req :=
+// &T{a: x}; req.a`), address-of, and - when it ends at a parameter of f - through the arguments of every static caller
+// of f, recursively (bounded). path is a pending field path (innermost last) to apply once a struct literal is reached.
+func crossLeaves(p *chk.Prog, f *chk.Fn, e ast.Expr, path []string, depth int) []xleaf {
+	if e == nil {
+		return nil
+	}
+	if depth > 5 {
+		return []xleaf{{f, e}}
+	}
+	e = ast.Unparen(f.Resolve(e))
+	switch v := e.(type) {
+	case *ast.UnaryExpr:
+		if v.Op == token.AND {
+			return crossLeaves(p, f, v.X, path, depth)
+		}
+	case *ast.StarExpr:
+		return crossLeaves(p, f, v.X, path, depth)
+	case *ast.SelectorExpr:
+		if fld, ok := f.Info().Uses[v.Sel].(*types.Var); ok && fld.IsField() {
+			return crossLeaves(p, f, v.X, append(append([]string{}, path...), v.Sel.Name), depth)
+		}
+	case *ast.CompositeLit:
+		if len(path) > 0 {
+			want := path[len(path)-1]
+			for _, el := range v.Elts {
+				if kv, ok := el.(*ast.KeyValueExpr); ok {
+					if k, isId := kv.Key.(*ast.Ident); isId && k.Name == want {
+						return crossLeaves(p, f, kv.Value, path[:len(path)-1], depth)
+					}
+				}
+			}
+			return []xleaf{{f, e}} // field not set: zero value
+		}
+	case *ast.Ident:
+		if f.Type != nil && f.Type.Params != nil && f.Obj != nil {
+			idx, k := -1, 0
+			var pobj types.Object
+			for _, fld := range f.Type.Params.List {
+				for _, nm := range fld.Names {
+					if f.Info().Defs[nm] == f.ObjOf(v) && f.ObjOf(v) != nil {
+						idx, pobj = k, f.ObjOf(v)
+					}
+					k++
+				}
+				if len(fld.Names) == 0 {
+					k++
+				}
+			}
+			if idx >= 0 && len(assignsTo(f, pobj)) == 0 && len(path) > 0 {
+				callers := p.CallersOf(f)
+				if len(callers) > 0 {
+					var out []xleaf
+					for _, cs := range callers {
+						if idx >= len(cs.Call.Args) || cs.Call.Ellipsis.IsValid() {
+							return []xleaf{{f, e}}
+						}
+						out = append(out, crossLeaves(p, cs.Fn, cs.Call.Args[idx], path, depth+1)...)
+					}
+					return out
+				}
+			}
+		}
+	}
+	if len(path) > 0 {
+		return []xleaf{{f, nil}} // a field of something that is not seen through
+	}
+	return []xleaf{{f, e}}
+}
+
+// crossParam: e is (a copy of) a parameter named one of names - of f itself, or, for a field of a request object that f
+// was handed, of every function that built that object.
+func crossParam(p *chk.Prog, f *chk.Fn, names ...string) func(ast.Expr) bool {
+	return func(e ast.Expr) bool {
+		for _, n := range names {
+			if f.ParamNamed(n) != nil && isParam(f, n)(e) {
+				return true
+			}
+		}
+		leaves := crossLeaves(p, f, e, nil, 0)
+		if len(leaves) == 0 {
+			return false
+		}
+		for _, l := range leaves {
+			ok := false
+			if l.E != nil {
+				for _, n := range names {
+					if l.Fn.ParamNamed(n) != nil && isParam(l.Fn, n)(l.E) {
+						ok = true
+					}
+				}
+			}
+			if !ok {
+				return false
+			}
+		}
+		return true
+	}
 }
